@@ -8,6 +8,7 @@ import (
 	"strings"
 
 	"github.com/absolute8511/redcon"
+	"github.com/gobwas/glob"
 	"github.com/youzan/ZanRedisDB/common"
 )
 
@@ -21,6 +22,11 @@ import (
 //	full <TYPE> <hextable> <hexstart> <count> <rev>           → keys=[…] rounds=<n>        client loop
 //	cscan <h|s|z> <hexrawkey> <hexcursor> <count> <rev>       → items=[…] next=<hex>       one page
 //	cfull <h|s|z> <hexrawkey> <hexstart> <count> <rev>        → items=[…] rounds=<n>       client loop
+//	fullm / cfullm … <hexprefix>                              the same loops with MATCH <prefix>* (modelled in Lean)
+//	fullg / cfullg … <hexpattern>                             the same loops with MATCH <glob pattern> (oracle only: the
+//	                                                          matching subset as the glob library itself decides it)
+//	bigpop <kv|set> <hextable> <n>                            n keys k00000… plus a_hit_0, z_hit_1, z_hit_2 in a table of
+//	                                                          its own (oracle only; sparse matches behind thousands of misses)
 func init() { register(&Proto{Name: "scan", Gen: genScan, New: newScan}) }
 
 var scanTypes = []string{"KV", "HASH", "LIST", "SET", "ZSET"}
@@ -30,7 +36,8 @@ func genScan(rng *rand.Rand, tier string, emit func(string)) {
 	if tier == "thorough" {
 		sessions = 3000
 	}
-	names := []string{"a", "a0", "a:", "a:b", "ab", "b", "\x00", "a\x00", "\xff", "a\xff", "aa", "z", "m", "m:n", ";", ":"} // non-empty names (the property's quantifier)
+	names := []string{"a", "a0", "a:", "a:b", "ab", "b", "\x00", "a\x00", "\xff", "a\xff", "aa", "z", "m", "m:n", ";", ":", "abc", "abd", "abc1"} // non-empty names (the property's quantifier)
+	globs := []string{"a*", "*a", "?", "a?", "a??", "[a-m]*", "[!a]*", "{a,b}*", "a{b,0}*", "ab{c,d}*", "ab{c,d}?", "{a,m}", "*:*", "a\\:*", "*b*", "**", "a[0-9]", "{ab,z}*", "m{,:n}"}
 	for s := 0; s < sessions; s++ {
 		eng := "pebble"
 		if rng.Intn(3) == 0 {
@@ -94,6 +101,27 @@ func genScan(rng *rand.Rand, tier string, emit func(string)) {
 				} else {
 					emit(fmt.Sprintf("full %s %s %s %d %d", T, hexs([]byte(tab)), hexs([]byte(start)), cnt, rev))
 				}
+			}
+		}
+		// MATCH with general glob patterns (alternation, classes, single-character wildcards), oracle only
+		for q := 0; q < 4; q++ {
+			g := globs[rng.Intn(len(globs))]
+			cnt := []int{1, 2, 3, 5, 7, 100}[rng.Intn(6)]
+			if len(collKeys) > 0 && rng.Intn(2) == 0 {
+				emit(fmt.Sprintf("cfullg %s %s %d %d %s", collKeys[rng.Intn(len(collKeys))], hexs(nil), cnt, rng.Intn(2), hexs([]byte(g))))
+			} else {
+				emit(fmt.Sprintf("fullg %s %s %s %d %d %s", scanTypes[rng.Intn(5)], hexs([]byte(tabs[rng.Intn(ntab)])), hexs(nil), cnt, rng.Intn(2), hexs([]byte(g))))
+			}
+		}
+		// one session per quick run (a few per thorough run): matches that are thousands of non-matching keys apart
+		if (tier != "thorough" && s == 3) || (tier == "thorough" && s%200 == 3) {
+			for _, tp := range []string{"kv", "set"} {
+				big := "big" + tp
+				emit(fmt.Sprintf("bigpop %s %s %d", tp, hexs([]byte(big)), 5200+rng.Intn(1500)))
+				for _, cnt := range []int{2, 100, 3000} {
+					emit(fmt.Sprintf("fullg %s %s %s %d %d %s", strings.ToUpper(tp), hexs([]byte(big)), hexs(nil), cnt, 0, hexs([]byte("*hit*"))))
+				}
+				emit(fmt.Sprintf("fullg %s %s %s %d %d %s", strings.ToUpper(tp), hexs([]byte(big)), hexs(nil), 10, 1, hexs([]byte("*hit*"))))
 			}
 		}
 		for q := 0; q < 10 && len(collKeys) > 0; q++ {
@@ -219,9 +247,62 @@ func newScan(c *Ctx) func(string) string {
 		return out
 	}
 	matchPrefix := ""
+	var globPat glob.Glob // fullg / cfullg: the compiled pattern (nil otherwise)
+	keep := func(k string, keyPrefix string) bool {
+		if globPat != nil {
+			return globPat.Match(k)
+		}
+		return strings.HasPrefix(k, keyPrefix+matchPrefix)
+	}
 	var exec func(line string) string
 	exec = func(line string) string {
 		f := strings.Fields(line)
+		if (f[0] == "fullg" || f[0] == "cfullg") && len(f) == 7 {
+			pat := string(unhex(f[6]))
+			if f[0] == "fullg" {
+				pat = string(unhex(f[2])) + ":" + pat
+			}
+			g, err := glob.Compile(pat)
+			if err != nil || strings.IndexByte(pat, 0) >= 0 {
+				return "bad-op"
+			}
+			match, globPat = pat, g
+			c.Note("scan-glob-match")
+			defer func() { match, globPat = "", nil }()
+			return exec(strings.Join(append([]string{f[0][:len(f[0])-1]}, f[1:6]...), " "))
+		}
+		if f[0] == "bigpop" && len(f) == 4 {
+			if n == nil {
+				return "err:not-open"
+			}
+			cntN, _ := strconv.Atoi(f[3])
+			T := strings.ToUpper(f[1])
+			if pop[T] == nil {
+				pop[T] = map[string]bool{}
+			}
+			tab := string(unhex(f[2]))
+			var names []string
+			for i := 0; i < cntN; i++ {
+				names = append(names, fmt.Sprintf("k%05d", i))
+			}
+			names = append(names, "a_hit_0", "z_hit_1", "z_hit_2")
+			for _, nm := range names {
+				raw := []byte(tab + ":" + nm)
+				ts += 1000
+				var err error
+				if f[1] == "kv" {
+					err = n.kv.KVSet(ts, raw, []byte("v"))
+				} else {
+					_, err = n.kv.SAdd(ts, raw, []byte("m"))
+				}
+				if err != nil {
+					return "err:" + errClass(err.Error())
+				}
+				pop[T][string(raw)] = true
+			}
+			c.Note("scan-big-population")
+			return "ok"
+		}
 		if (f[0] == "fullm" || f[0] == "cfullm") && len(f) == 7 {
 			// with MATCH <prefix>* : exactly the matching subset (oracle-only, the Lean paging model has no MATCH)
 			matchPrefix = string(unhex(f[6]))
@@ -323,7 +404,7 @@ func newScan(c *Ctx) func(string) string {
 			if match != "" {
 				var w2 []string
 				for _, k := range want {
-					if strings.HasPrefix(k, string(table)+":"+matchPrefix) {
+					if keep(k, string(table)+":") {
 						w2 = append(w2, k)
 					}
 				}
@@ -370,7 +451,7 @@ func newScan(c *Ctx) func(string) string {
 			if match != "" {
 				var w2 []string
 				for _, k := range want {
-					if strings.HasPrefix(k, matchPrefix) {
+					if keep(k, "") {
 						w2 = append(w2, k)
 					}
 				}
